@@ -9,6 +9,7 @@ from ..spec import local_ok
 PROPERTY = 'C19'
 CASES = {'quick': 720, 'thorough': 20000}
 BUDGET_S = {'quick': 120, 'thorough': 1500}
+SUITE_UNDER_MONITORS = True      # thorough tier: the repository's own tests are an extra workload under the passive monitors
 RULE = ('case = one random grid (start around DST switches / month ends, freq in 15min..d plus W/MS, unit h/d/min, 5 zones) '
         'constructed through the real Timegrid, followed by restriction windows in every placement, a coarse restricted grid, '
         'an interval list pushed through values_to_grid and price data through prices_to_grid; the invariant monitor runs at every '
